@@ -3,6 +3,7 @@
 //   vph record <kind> <n> <seed> <out.ndjson> [...]  I->S: random drivers recording trace events
 mod core;
 mod ops;
+#[cfg(feature = "full")]
 mod record;
 
 use std::fs::{File, OpenOptions};
@@ -70,6 +71,7 @@ fn main() {
     }
     match args[1].as_str() {
         "replay" => replay(&args[2..]),
+        #[cfg(feature = "full")]
         "record" => {
             let kind = args[2].as_str();
             let n: usize = args[3].parse().unwrap();
